@@ -216,6 +216,7 @@ class FSetState(CExec):
     other).  Trusted: PyArg_ParseTuple("O|O") stores the first element and, if present, the second; PyTuple_Size;
     realloc as in F-LEAF; destructors run by the initial DECREFs do not touch this leaf (A4b)."""
     family = "F-STATE"
+    LOCALS = ("items", "next", "len", "i", "l")
 
     @classmethod
     def applies(cls, tu, fn):
@@ -226,13 +227,13 @@ class FSetState(CExec):
         self.S = st.vars[ps[0]["id"]]
         self.ids = {}
         for x in walk(self.fn):
-            if x.get("kind") == "VarDecl" and x.get("name") in ("items", "next", "len", "i", "l"):
+            if x.get("kind") == "VarDecl" and x.get("name") in self.LOCALS:
                 self.ids.setdefault(x["name"], x["id"])
-        if set(self.ids) != {"items", "next", "len", "i", "l"}:
-            raise Unsupported("_bucket_setstate's locals not found")
+        if set(self.ids) != set(self.LOCALS):
+            raise Unsupported("%s's locals not found" % self.fname)
         self.loops = [x for x in walk(self.fn) if x.get("kind") == "ForStmt"]
         if len(self.loops) != 2:
-            raise Unsupported("_bucket_setstate does not have its two loops")
+            raise Unsupported("%s does not have its two loops" % self.fname)
         self.kinfo = self.vinfo = None
         for x in walk(self.fn):
             if x.get("kind") == "MemberExpr" and x.get("name") in ("keys", "values"):
@@ -242,8 +243,10 @@ class FSetState(CExec):
                     self.kinfo = t
                 else:
                     self.vinfo = t
+        if self.vinfo is None:
+            self.vinfo = self.kinfo
         if not self.kinfo or "PyObject" not in self.kinfo or "PyObject" not in self.vinfo:
-            raise Unsupported("F-STATE covers _bucket_setstate of object-keyed, object-valued units only")
+            raise Unsupported("F-STATE covers %s of object-keyed, object-valued units only" % self.fname)
         S = self.S
         for f in ("len", "size", "keys", "values", "next"):
             self.hread(st, f, S)
@@ -283,7 +286,7 @@ class FSetState(CExec):
             t, idx = args[0], args[1]
             k = self.nget
             self.nget += 1
-            self.oblige(st, "F-STATE:_bucket_setstate:get_item[%d]:index-in-bounds" % k, z3.And(0 <= idx, idx < TLEN(t)))
+            self.oblige(st, "F-STATE:%s:get_item[%d]:index-in-bounds" % (self.fname, k), z3.And(0 <= idx, idx < TLEN(t)))
             return z3.Select(st.heap[TUP], t + idx)
         if name in ("BTree_Realloc", "realloc"):
             from .fsplit import FSplit
@@ -297,7 +300,7 @@ class FSetState(CExec):
                 raise Unsupported("realloc of something that is not self->keys / self->values")
             mem = self.kinfo if which == "keys" else self.vinfo
             old = (self.K0, self.size0) if which == "keys" else (self.V0, self.size0)
-            self.oblige(st, "F-STATE:_bucket_setstate:realloc[%s]:grows" % which, z3.And(p == old[0], cnt >= old[1]))
+            self.oblige(st, "F-STATE:%s:realloc[%s]:grows" % (self.fname, which), z3.And(p == old[0], cnt >= old[1]))
             r = self.fresh_block(cnt, old)
             a = z3.Int("a!ra")
             m0 = st.heap[mem]
@@ -317,7 +320,7 @@ class FSetState(CExec):
             idx = self.rvalue(n["inner"][1], st)
             k = self.nget
             self.nget += 1
-            self.oblige(st, "F-STATE:_bucket_setstate:get_item[%d]:index-in-bounds" % k, z3.And(0 <= idx, idx < TLEN(t)))
+            self.oblige(st, "F-STATE:%s:get_item[%d]:index-in-bounds" % (self.fname, k), z3.And(0 <= idx, idx < TLEN(t)))
             return z3.Select(st.heap[TUP], t + idx)
         return super().rv_ArraySubscriptExpr(n, st)
 
@@ -385,7 +388,7 @@ class FSetState(CExec):
                 self.assumptions.append(z3.Implies(entry.guard, z3.Or(b == 0, b + c <= items, items + TLEN(items) <= b)))
             self.assumptions.append(z3.Implies(entry.guard, TLEN(items) >= 0))
         for nm, f in self.inv(st).items():
-            self.oblige(st, "F-STATE:_bucket_setstate:fill:%s:%s" % (phase, nm), norm(f))
+            self.oblige(st, "F-STATE:%s:fill:%s:%s" % (self.fname, phase, nm), norm(f))
 
     def on_return(self, st, v):
         from .fleaf import norm
@@ -408,7 +411,47 @@ class FSetState(CExec):
         if nxt is not None:
             G["successor"] = self.hread(st, "next", S) == nxt
         for nm, g in G.items():
-            self.oblige(st, "F-STATE:_bucket_setstate:post:" + nm, norm(z3.Implies(v == 0, g)))
+            self.oblige(st, "F-STATE:%s:post:%s" % (self.fname, nm), norm(z3.Implies(v == 0, g)))
+
+
+class FSetSetState(FSetState):
+    """`_set_setstate(self, state)` (object-keyed unit): the set leaf's variant - len' == len(items), keys'[j] is items[j],
+    the successor is taken over; every item read inside the tuple; the key vector is only grown."""
+    LOCALS = ("items", "next", "i", "l")
+
+    @classmethod
+    def applies(cls, tu, fn):
+        return fn == "_set_setstate"
+
+    def inv(self, st):
+        S = self.S
+        i, l, items = self.v(st, "i"), self.v(st, "l"), self.v(st, "items")
+        j0 = self.j0
+        kp = self.hread(st, "keys", S)
+        tm = st.heap[TUP]
+        return {
+            "bounds": z3.And(0 <= i, i <= l, l == TLEN(items), l <= self.hread(st, "size", S), z3.Implies(l > 0, kp > 0)),
+            "filled_so_far": z3.Implies(z3.And(0 <= j0, j0 < i), z3.Select(st.heap[self.kinfo], kp + j0) == z3.Select(tm, items + j0)),
+            "tuple_untouched": tm == z3.Const("H0_" + TUP, z3.ArraySort(INT, INT)),
+        }
+
+    def on_return(self, st, v):
+        from .fleaf import norm
+        if v is None or self.ids["items"] not in st.vars or not self.parsed:
+            return
+        S = self.S
+        items, ln = self.v(st, "items"), self.hread(st, "len", S)
+        j0 = self.j0
+        kp = self.hread(st, "keys", S)
+        tm = st.heap[TUP]
+        nxt = st.vars.get(self.ids["next"])
+        G = {"length": z3.And(ln == TLEN(items), ln <= self.hread(st, "size", S)),
+             "entries": z3.Implies(z3.And(0 <= j0, j0 < ln), z3.Select(st.heap[self.kinfo], kp + j0) == z3.Select(tm, items + j0))}
+        if nxt is not None:
+            G["successor"] = self.hread(st, "next", S) == nxt
+        for nm, g in G.items():
+            self.oblige(st, "F-STATE:%s:post:%s" % (self.fname, nm), norm(z3.Implies(v == 0, g)))
+
 
 
 TYPE_OF = z3.Function("ob_type", INT, INT)
@@ -600,10 +643,10 @@ class FStateAny(CExec):
 
     @classmethod
     def applies(cls, tu, fn):
-        return fn in ("bucket_getstate", "_bucket_setstate", "BTree_getstate")
+        return fn in ("bucket_getstate", "_bucket_setstate", "BTree_getstate", "_set_setstate")
 
     def __new__(cls, tu, fname):
-        return {"bucket_getstate": FGetState, "_bucket_setstate": FSetState, "BTree_getstate": FTreeGetState}[fname](tu, fname)
+        return {"bucket_getstate": FGetState, "_bucket_setstate": FSetState, "BTree_getstate": FTreeGetState, "_set_setstate": FSetSetState}[fname](tu, fname)
 
 
 ANALYSIS = {"F-STATE": FStateAny}
